@@ -1,9 +1,10 @@
 import TexelVerif.BookBuild.Witness
+import TexelVerif.BookBuild.AddPos
 /-!
 # C19 — book-builder graph scores stay at their defined fixed point
 
 Property theorems only; the model is `TexelVerif/BookBuild/{Basic,Update,Link}.lean`, the proofs are in
-`BookBuild/{Propagate,Invariant,Preserve,UpdateSpec,Ops,Witness}.lean`.
+`BookBuild/{Propagate,Invariant,Preserve,UpdateSpec,Ops,Depth,LinkSpec,AddLink,LinkNew,AddPos,Witness}.lean`.
 
 `fixed := true` is the algorithm of the tree *after* the commit `fix: BookNode::updateScores also queues the changed
 node itself for the path-error pass`; `fixed := false` is the algorithm as found.  The line-protocol driver
@@ -31,6 +32,26 @@ theorem removePending_preserves_fixedpoint (b : Book) (i : Nat) (h : FixedPoint 
 theorem updateScores_preserves_fixedpoint (b : Book) (i : Nat) (h : FixedPoint b) (hi : i < b.size) :
     FixedPoint (updateScores true b i) :=
   updateScores_preserves b i h hi
+
+/-- `Book::addPosToBook` (new node, links to *all* its parents incl. transpositions, links to already existing
+    children, `updateDepth` along every new link, `updateScores` on the new node) keeps the book at its fixed point.
+    `AddOk` is what the chess rules guarantee about the new position's links: at least one parent, link targets exist,
+    the root is nobody's child, the extended graph is acyclic (ghost rank `r'`), all parents have the same depth parity
+    and all children that parity too, the parents have no book move yet for the linking move, distinct children are
+    reached by distinct moves, fewer than 2^31 - 2 nodes. -/
+theorem addPos_preserves_fixedpoint (b : Book) (key : Nat) (ps cs : List (Nat × Nat)) (r' : Nat → Nat)
+    (h : FixedPoint b) (hA : AddOk b ps cs r') : FixedPoint (addPos true b key ps cs) :=
+  addPos_preserves b key ps cs r' h hA
+
+/-- One `parent->addChild(mv, child); child->addParent(mv, parent)` (which runs `updateDepth`) keeps links consistent
+    and ranked, re-establishes every depth equation and the parity alternation, and changes nothing but the two link
+    lists and depths; depths only decrease and keep parity and zero-ness. -/
+theorem addLink_preserves_link_invariant (b : Book) (r : Nat → Nat) (c mv p : Nat) (hI : LinkInv b r)
+    (hp : p < b.size) (hc : c < b.size) (hc0 : c ≠ 0) (hrk : r p < r c) (hpl : p = 0 ∨ parentIds (b.nd p) ≠ [])
+    (hpar : parentIds (b.nd c) = [] ∨ ((b.nd p).depth + (b.nd c).depth) % 2 = 1)
+    (huniq : ∀ x ∈ (b.nd p).children, x.1 = mv → x = (mv, c)) :
+    LinkInv (addLink b c mv p) r ∧ AL b (addLink b c mv p) c mv p :=
+  addLink_spec b r c mv p hI hp hc hc0 hrk hpl hpar huniq
 
 /-- The core of all of the above: on a structurally sound book where only `start` and its parents may violate the
     negamax / expansion-cost equations and only `start` may violate the path-error equations, the repaired
@@ -60,5 +81,15 @@ theorem witness_values :
 -- non-vacuity: the hypotheses are satisfiable
 example (k : Nat) (c : Costs) : FixedPoint (Book.new k c) := fixedPoint_new k c
 example : (0 : Nat) < (Book.new 7 {}).size := by decide
+example : AddOk (Book.new 7 {}) [(1804, 0)] [] (fun i => i) := by
+  refine ⟨by simp, ?_, by simp, ?_, ?_, ?_, by simp, ?_, by simp, ?_, by simp, by decide⟩
+  · intro e he; simp at he; subst he; decide
+  · intro i hi; exact hi
+  · intro i hi c hc
+    have : i = 0 := by have : (Book.new 7 {}).size = 1 := rfl; omega
+    subst this; simp [nd_new, childIds] at hc
+  · intro e he; simp at he; subst he; decide
+  · intro e he e' he'; simp at he he'; subst he; subst he'; rfl
+  · intro e he x hx; simp at he; subst he; simp [nd_new] at hx
 
 end Props.C19
